@@ -1,6 +1,5 @@
 from datetime import datetime, timezone
 from typing import Any, TYPE_CHECKING
-from functools import lru_cache
 
 from dliswriter.utils.internal.internal_enums import RepresentationCode
 
@@ -150,9 +149,12 @@ _struct_dict = {
 }
 
 
-@lru_cache(maxsize=65536)
 def write_struct(representation_code: RepresentationCode, value: Any) -> bytes:
     """Convert a value to bytes according to the RP66 V1 spec.
+
+    Note: the results are deliberately not memoised. Values which compare (and hash) equal can have different
+    representations (0.0 and -0.0; 1, 1.0, and True written as ASCII), and EFLR items can be renamed or moved to
+    a different origin between two writes.
 
     Args:
         representation_code :   The way the value should be represented as.
